@@ -516,7 +516,7 @@ def _sweep_ismember(rep, pp):
         "ismember_columns",
         rule="all pairs (a, b) of integer arrays: 1-d with entries 0..2 and lengths <= 3; 2 x n with entries 0..1, na, nb <= 3; "
              "2 x n with entries 0..2, na, nb <= 2; each with sort=True and sort=False; plus seeded 3 x n arrays (entries 0..3, "
-             "n <= 6); nontrivial = some but not all columns of a are members, or b holds a repeated column; distinct by (a, b, sort)",
+             "n <= 6) and seeded 1-3 row arrays with entries of either sign and up to 1e9; nontrivial = some but not all columns of a are members, or b holds a repeated column; distinct by (a, b, sort)",
         bound="lengths <= 3 / entries <= 2 exhaustive; %d seeded" % (300 if quick else 5000),
         exhaustive=False,
     ) as sw:
@@ -561,6 +561,20 @@ def _sweep_ismember(rep, pp):
                         b[:, j] = c
             for sort in (True, False):
                 one(a, b, sort, ("3d", a.tobytes(), b.tobytes(), na, sort))
+        # entries of either sign and of large magnitude (integer columns are compared as such: no sign or size is special)
+        for it in range(150 if quick else 2500):
+            nr = rng.choice((1, 2, 2, 3))
+            na, nb = rng.randint(1, 6), rng.randint(1, 6)
+            vals = rng.choice(([-2, -1, 0, 1, 2], [-3, -1, 0, 2], [-10 ** 9, -1, 0, 1, 10 ** 9]))
+            a = np.array([[rng.choice(vals) for _ in range(na)] for _ in range(nr)], dtype=np.int64)
+            b = np.array([[rng.choice(vals) for _ in range(nb)] for _ in range(nr)], dtype=np.int64)
+            for j in range(nb):
+                if rng.random() < 0.4:
+                    b[:, j] = a[:, rng.randrange(na)]
+            if nr == 1:
+                a, b = a[0], b[0]
+            for sort in ((True,) if nr == 1 else (True, False)):
+                one(a, b, sort, ("signed", nr, a.tobytes(), b.tobytes(), na, sort))
 
 
 # ----------------------------------------------------------------------------- intersect_sets
